@@ -330,9 +330,11 @@ func isDistinctIdents(exprs []ast.Expr) bool {
 // emitTupleAssign emits code for a tuple assignment with targets other than
 // distinct variables, like `s[i], i = x, y` or `a.f, s[0], s[0] = x, y, z`.
 // The operands of index expressions and the structures of field selectors on
-// the left are evaluated first, then the values on the right, after that the
-// values are stored from left to right.
-func (c *codegen) emitTupleAssign(n *ast.AssignStmt) {
+// the left are evaluated first, then the values on the right (as many
+// expressions as there are targets, or one call with that many results, or
+// a map lookup with the ok flag if isMapKeyCheck is set), after that the values
+// are stored from left to right.
+func (c *codegen) emitTupleAssign(n *ast.AssignStmt, isMapKeyCheck bool) {
 	var (
 		kept  = make([]int, len(n.Lhs)) // number of stack items kept for the target
 		field = make([]int, len(n.Lhs)) // index of the field for struct field targets
@@ -367,11 +369,22 @@ func (c *codegen) emitTupleAssign(n *ast.AssignStmt) {
 		}
 		below += kept[i]
 	}
-	for i := range n.Rhs {
-		c.saveExprSequencePoint(n.Rhs[i])
-		c.walkValue(n.Rhs[i])
+	if isMapKeyCheck {
+		mapType, _ := c.getMapTypeWithOKFlag(n.Rhs[0])
+		c.saveExprSequencePoint(n.Rhs[0])
+		c.emitGetMapValueWithOKFlag(n.Rhs[0])
+		c.emitCloneIfArray(mapType.Elem())
+	} else {
+		for i := range n.Rhs {
+			c.saveExprSequencePoint(n.Rhs[i])
+			c.walkValue(n.Rhs[i])
+		}
 	}
-	c.emitReverse(len(n.Rhs)) // the first value is on top
+	// The first value has to be on top, a multi-valued expression leaves its
+	// values in this order.
+	if len(n.Rhs) == len(n.Lhs) {
+		c.emitReverse(len(n.Rhs))
+	}
 	for i, lhs := range n.Lhs {
 		if i == len(n.Lhs)-1 {
 			// The sequence point includes a sign ":=" or "=".
@@ -393,7 +406,7 @@ func (c *codegen) emitTupleAssign(n *ast.AssignStmt) {
 		case 1: // value structure
 			c.emitStoreStructField(field[i])
 		default:
-			if t, ok := lhs.(*ast.Ident); ok && n.Tok == token.DEFINE {
+			if t, ok := lhs.(*ast.Ident); ok && n.Tok == token.DEFINE && len(n.Rhs) == len(n.Lhs) {
 				c.registerDebugVariable(t.Name, n.Rhs[i])
 			}
 			c.emitStoreExpr(lhs, n.Tok)
@@ -1025,14 +1038,14 @@ func (c *codegen) Visit(node ast.Node) ast.Visitor {
 			c.emitShiftCountLimit(n.Tok, n.Rhs[0])
 			c.emitToken(n.Tok, c.typeOf(n.Rhs[0]))
 		}
+		if len(n.Lhs) > 1 && !isDistinctIdents(n.Lhs) {
+			c.emitTupleAssign(n, isMapKeyCheck)
+			return nil
+		}
 		if isMapKeyCheck {
 			c.saveExprSequencePoint(n.Rhs[0])
 			c.emitGetMapValueWithOKFlag(n.Rhs[0])
 			c.emitCloneIfArray(mapType.Elem())
-		}
-		if len(n.Lhs) > 1 && !multiRet && !isDistinctIdents(n.Lhs) {
-			c.emitTupleAssign(n)
-			return nil
 		}
 		if !isAssignOp && !isMapKeyCheck {
 			for i := range n.Rhs {
